@@ -3,9 +3,9 @@
    (Gen/GenC19Theta.v, loops unrolled for d = 2, 3); fast_*d are the generated rectangle masses of C12; the spread maps are
    Gen/GenC19Spread.v.  The equality with the sum of the chain's per-state rates over the default region of a CTMCCredit
    grid is NOT a theorem here: it is checked on the implementation (exactly on dyadic step models) by harness/props/C19.py. *)
-From Coq Require Import List Arith Bool Reals QArith.
+From Coq Require Import List Arith Bool Reals QArith Lra.
 From RV Require Import Base.RB Base.ExtNum Model.Copula Gen.GenC12Mass Model.MassNd Gen.GenC19Theta Gen.GenC19Spread Model.Credit
-  Proofs.C12_Mass Proofs.C12_Family Proofs.C12_Nonneg Proofs.C11_Copula Proofs.C11_Clayton Proofs.C11_Increasing Proofs.C11_Dep3 Proofs.C19_Credit Proofs.C19_Spread Model.Grid Model.Chain Proofs.C01_Chain Proofs.C19_Rate.
+  Proofs.C12_Mass Proofs.C12_Family Proofs.C12_Nonneg Proofs.C11_Copula Proofs.C11_Clayton Proofs.C11_Increasing Proofs.C11_Dep3 Proofs.C19_Credit Proofs.C19_Spread Model.Grid Model.Chain Proofs.C01_Chain Proofs.C13_Grid Proofs.C19_Rate Proofs.C19_RateCredit.
 Import ListNotations.
 Open Scope R_scope.
 
@@ -128,6 +128,28 @@ Proof.
   - intros. apply refined_gap_1d; assumption.
 Qed.
 
+(* d = 1, composed: on the level-0 credit axis built by CTMCCredit (C13's credit_axis: l, a-eps, a+eps, -h, 0, h, .., r), with the
+   chain's cells between arithmetic mid-points (C01), the summed rates of the two states below the threshold equal the GENERATED
+   theta (th1 = CFLevyModel._theta) of the measure truncated to [l, r], whose tail integral is U(a) = -mass l a. *)
+Theorem C19_rate_equals_theta_credit_1d : forall (mass : Q -> Q -> Q) (U1 : nat -> ext Q -> Q),
+  (forall a b c, (a <= b)%Q -> (b <= c)%Q -> ((c < 0)%Q \/ (0 < a)%Q) -> (mass a c == mass a b + mass b c)%Q) ->
+  (forall a a' b b', (a == a')%Q -> (b == b')%Q -> (mass a b == mass a' b')%Q) ->
+  forall l a h r sym xs o, credit_axis l a h r sym = Some (xs, o) -> (a < 0)%Q -> (U1 0%nat (Fin a) == - mass l a)%Q ->
+  (qsum (map (fun k => mass (cell_lo amid xs k) (cell_hi amid xs k)) (seq 0 2)) == th1 QNum U1 (Fin a))%Q.
+Proof. intros mass U1 H1 H2 l a h r sym xs o. apply rate_equals_theta_credit_1d; assumption. Qed.
+
+(* the implied-threshold objective composed with C19_monotone (d = 1): with the generated theta of real tails of a non-negative
+   measure, cds_spread(a) - target is non-decreasing in the (negative) threshold *)
+Theorem C19_threshold_objective_monotone : forall (U1 : nat -> ext R -> R) (target rec : R), rtails_ok U1 -> rec <= 1 ->
+  forall a a' : R, a <= a' -> a' < 0 ->
+  implied_threshold_fun R (fun x => th1 RNum U1 (Fin x)) target rec a <= implied_threshold_fun R (fun x => th1 RNum U1 (Fin x)) target rec a'.
+Proof.
+  intros U1 target rec Tok Hr a a' L N.
+  apply (proj1 (implied_threshold_props R (fun x => th1 RNum U1 (Fin x)) (fun x y => x <= y /\ y < 0)
+         (fun x y H => theta1_monotone U1 Tok (Fin x) (Fin y) (proj2 (Rleb_true x y) (proj1 H)) (proj2 (Rltb_true y 0) (proj2 H))) target rec Hr)).
+  split; assumption.
+Qed.
+
 (* non-vacuity: the Q instance of the generated theta evaluates on a dyadic step model (independent copula): the union
    mass is the sum of the two marginal masses below the thresholds *)
 Open Scope Q_scope.
@@ -144,4 +166,6 @@ Print Assumptions C19_monotone_modelled.
 Print Assumptions C19_spread_maps.
 Print Assumptions C19_implied_quantities.
 Print Assumptions C19_rate_equals_theta_partial.
+Print Assumptions C19_rate_equals_theta_credit_1d.
+Print Assumptions C19_threshold_objective_monotone.
 Print Assumptions C19_nonvacuous.
